@@ -879,6 +879,142 @@ theorem multi_wiring_loop_carried (ds : List Doc) (out : List Comp) (hOut : Outs
   rw [multi_instances_exact_mem ds out hOut hConds hNodups hDisj h]
   exact ⟨a, d, ha, kOf h a, Nat.le_refl _, t, ht, rfl⟩
 
+/-! ### wiring of the consumers of a placeholder (graph edges) -/
+
+/-- the producer of the current condition of document `d` after history `h`, `i` being the index of `d` -/
+abbrev condOf (d : Doc) (k : Nat) : CId := (d.condStage + d.importStage, instName k d.condName)
+
+/-- **multi_refPreds_placeholder (per-consumer expansion).**  Whatever the history, a reference `r` of ANY component `c`
+(outside the loops or an instance of a looped component, e.g. the condition component aggregating a sibling with
+`:loopref`/`:loopoutput`) that names the placeholder of looped component `t` of document `i` expands to exactly the
+instances `0 … kOf h i` of `t` followed by the producer of the condition of iteration `kOf h i` — unless `c` is that
+producer itself.  The right-hand side mentions only `c`: what another consumer of the same placeholder is, or whether
+it was visited earlier in the same graph construction, does not matter. -/
+theorem multi_refPreds_placeholder (ds : List Doc) (out : List Comp) (hOut : OutsideUnlooped out)
+    (hConds : ∀ d ∈ ds, CondInLoop d) (hNodups : ∀ d ∈ ds, (loopIds d).Nodup) (hDisj : LoopsDisjoint ds) (h : List Nat)
+    (i : Nat) (d : Doc) (hi : ds[i]? = some d) (t : Comp) (ht : t ∈ d.comps)
+    (c : Comp) (r : Ref) (hr : (r.stage.getD c.stage, r.producer) = pid d t) :
+    refPreds ds (runM ds out h).comps c r =
+      ((List.range (kOf h i + 1)).map fun j => (t.stage + d.importStage, instName j t.name)) ++
+        (if c.id = condOf d (kOf h i) then [] else [condOf d (kOf h i)]) := by
+  have hI := multi_inv ds out hOut hConds hNodups hDisj h
+  obtain ⟨_, h2⟩ := cond_of_matched (hConds d (List.mem_of_getElem? hi)) (hI.1 i d hi)
+  simp only [refPreds, hr, multi_placeholder_entry true ds hDisj _ i d hi t ht,
+    multi_represents_eq ds out hOut hConds hNodups hDisj h i d hi t ht, h2]
+  by_cases hcc : c.id = condOf d (kOf h i)
+  · simp [hcc]
+  · have : ((d.condStage + d.importStage, instName (kOf h i) d.condName) != c.id) = true := by
+      simp only [bne_iff_ne, ne_eq]
+      exact fun e => hcc e.symm
+    simp [this, hcc]
+
+/-- every edge of a graph construction over the current workflow is an edge of the live graph: the edges of the nodes
+that existed before an iteration are merged into the graph like those of the new nodes, on every iteration -/
+theorem multi_edges_complete (ds : List Doc) (out : List Comp) (h : List Nat) :
+    ∀ e ∈ edgesOfM ds (runM ds out h).comps, e ∈ (runM ds out h).edges := by
+  unfold runM
+  have h0 : ∀ e ∈ edgesOfM ds (initM ds out).comps, e ∈ (initM ds out).edges := fun e he => he
+  generalize initM ds out = w at h0
+  induction h generalizing w with
+  | nil => exact h0
+  | cons a h ih =>
+    simp only [List.foldl_cons]
+    apply ih
+    unfold stepM
+    cases ds[a]? with
+    | none => exact h0
+    | some d => intro e he; exact List.mem_append_right _ he
+
+/-- the components that exist are kept, in particular those outside the loops -/
+theorem multi_out_mem (ds : List Doc) (out : List Comp) (h : List Nat) {c : Comp} (hc : c ∈ out) :
+    c ∈ (runM ds out h).comps := by
+  unfold runM
+  have h0 : c ∈ (initM ds out).comps := List.mem_append_left _ hc
+  generalize initM ds out = w at h0
+  induction h generalizing w with
+  | nil => exact h0
+  | cons a h ih =>
+    simp only [List.foldl_cons]
+    apply ih
+    unfold stepM
+    cases ds[a]? with
+    | none => exact h0
+    | some d => exact List.mem_append_left _ h0
+
+/-- **multi_consumer_wired.**  After every history `h` (every number of iterations of every document, in any
+interleaving), a component `c` of the workflow that declares a reference to looped component `t` of document `i` has, in
+the live graph, an edge from EVERY instance `0 … kOf h i` of `t` — in particular from the numerically highest one, also
+when `c` existed long before that instance — and, unless it produces that condition itself, from the producer of the
+condition of iteration `kOf h i`: it is not released before the loop decided whether there is a further iteration. -/
+theorem multi_consumer_wired (ds : List Doc) (out : List Comp) (hOut : OutsideUnlooped out)
+    (hConds : ∀ d ∈ ds, CondInLoop d) (hNodups : ∀ d ∈ ds, (loopIds d).Nodup) (hDisj : LoopsDisjoint ds) (h : List Nat)
+    (i : Nat) (d : Doc) (hi : ds[i]? = some d) (t : Comp) (ht : t ∈ d.comps)
+    (c : Comp) (hc : c ∈ (runM ds out h).comps) (r : Ref) (hrc : r ∈ c.refs) (hrd : r.direct = false)
+    (hr : (r.stage.getD c.stage, r.producer) = pid d t) :
+    (∀ j, j ≤ kOf h i → ((t.stage + d.importStage, instName j t.name), c.id) ∈ (runM ds out h).edges) ∧
+    (c.id ≠ condOf d (kOf h i) → (condOf d (kOf h i), c.id) ∈ (runM ds out h).edges) := by
+  have hexp := multi_refPreds_placeholder ds out hOut hConds hNodups hDisj h i d hi t ht c r hr
+  have hmemids : ∀ (t' : Comp), t' ∈ d.comps → ∀ j, j ≤ kOf h i →
+      (t'.stage + d.importStage, instName j t'.name) ∈ ids (runM ds out h).comps := by
+    intro t' ht' j hj
+    apply mem_ids_of_loopedIds
+    rw [multi_instances_exact_mem ds out hOut hConds hNodups hDisj h]
+    exact ⟨i, d, hi, j, hj, t', ht', rfl⟩
+  refine ⟨?_, ?_⟩
+  · intro j hj
+    apply multi_edges_complete
+    apply mem_edgesOfM hc hrc hrd
+    · rw [hexp]
+      apply List.mem_append_left
+      simp only [List.mem_map, List.mem_range]
+      exact ⟨j, by omega, rfl⟩
+    · exact hmemids t ht j hj
+  · intro hne
+    apply multi_edges_complete
+    apply mem_edgesOfM hc hrc hrd
+    · rw [hexp]
+      apply List.mem_append_right
+      simp [hne]
+    · obtain ⟨c', hc', hcs, hcn⟩ := hConds d (List.mem_of_getElem? hi)
+      have := hmemids c' hc' (kOf h i) (Nat.le_refl _)
+      rw [hcs, hcn] at this
+      exact this
+
+/-- the same for a component outside the loops, which exists from the start: after every iteration it is wired to the
+instances and the condition of THAT iteration -/
+theorem multi_outside_consumer_wired (ds : List Doc) (out : List Comp) (hOut : OutsideUnlooped out)
+    (hConds : ∀ d ∈ ds, CondInLoop d) (hNodups : ∀ d ∈ ds, (loopIds d).Nodup) (hDisj : LoopsDisjoint ds) (h : List Nat)
+    (i : Nat) (d : Doc) (hi : ds[i]? = some d) (t : Comp) (ht : t ∈ d.comps)
+    (c : Comp) (hc : c ∈ out) (r : Ref) (hrc : r ∈ c.refs) (hrd : r.direct = false)
+    (hr : (r.stage.getD c.stage, r.producer) = pid d t) :
+    ((t.stage + d.importStage, instName (kOf h i) t.name), c.id) ∈ (runM ds out h).edges ∧
+    (condOf d (kOf h i), c.id) ∈ (runM ds out h).edges := by
+  have hw := multi_consumer_wired ds out hOut hConds hNodups hDisj h i d hi t ht c (multi_out_mem ds out h hc) r hrc hrd hr
+  refine ⟨hw.1 _ (Nat.le_refl _), hw.2 ?_⟩
+  intro e
+  have := hOut c hc
+  have e2 : c.name = instName (kOf h i) d.condName := (Prod.ext_iff.mp e).2
+  rw [e2] at this
+  simp at this
+
+/-- **multi_condition_not_its_own_predecessor.**  The component that produces the current condition may itself read a
+looped sibling `t` through its placeholder (an aggregate reference): the expansion for THIS consumer is the instances of
+`t` alone — it never names the consumer itself, so the graph gets no self-loop (no cycle), while every other consumer of
+the same placeholder does get the condition (`multi_refPreds_placeholder`). -/
+theorem multi_condition_not_its_own_predecessor (ds : List Doc) (out : List Comp) (hOut : OutsideUnlooped out)
+    (hConds : ∀ d ∈ ds, CondInLoop d) (hNodups : ∀ d ∈ ds, (loopIds d).Nodup) (hDisj : LoopsDisjoint ds) (h : List Nat)
+    (i : Nat) (d : Doc) (hi : ds[i]? = some d) (t : Comp) (ht : t ∈ d.comps)
+    (hnc : ¬ (t.stage = d.condStage ∧ t.name = d.condName))
+    (c : Comp) (hcc : c.id = condOf d (kOf h i)) (r : Ref) (hr : (r.stage.getD c.stage, r.producer) = pid d t) :
+    c.id ∉ refPreds ds (runM ds out h).comps c r := by
+  rw [multi_refPreds_placeholder ds out hOut hConds hNodups hDisj h i d hi t ht c r hr, hcc]
+  simp only [if_true, List.append_nil, List.mem_map, List.mem_range, not_exists, not_and]
+  intro j _ e
+  have e1 : t.stage + d.importStage = d.condStage + d.importStage := (Prod.ext_iff.mp e).1
+  have e2 := congrArg baseName (Prod.ext_iff.mp e).2
+  simp only [baseName_instName] at e2
+  exact hnc ⟨by omega, e2⟩
+
 /-- **readers change nothing.**  For every sequence of operations — documents instantiating iterations, and in between the
 Controller's dependency analysis / status report / placeholder state or a consumer resolving references — the workflow
 is the one obtained from the instantiations alone: all theorems above hold after any such sequence. -/
@@ -987,6 +1123,25 @@ example : resolveProducerM true [exDoc, exDoc2] (runM [exDoc, exDoc2] exOut [0, 
     = some (1, instName 1 "x".toList) := by decide
 example : resolveProducerM true [exDoc, exDoc2] (runM [exDoc, exDoc2] exOut [0, 1, 1, 1]).comps (2, "x".toList)
     = some (2, instName 3 "x".toList) := by decide
+/-- the outside consumer `plain0` (there from the start) is wired to instance 2 of `x` and to the condition of iteration 2 -/
+example : ((1, instName 2 "x".toList), ((2, "plain0".toList) : CId)) ∈ (runM [exDoc] exOut [0, 0]).edges ∧
+    ((1, instName 2 "stop".toList), ((2, "plain0".toList) : CId)) ∈ (runM [exDoc] exOut [0, 0]).edges := by decide
+/-- the condition component aggregates the looped sibling `x` (`x:loopoutput`) that `plain0` reads from outside -/
+def exDocAgg : Doc :=
+  { exDoc with comps := [{ stage := 0, name := "x".toList, refs := [⟨false, none, "in0".toList, [], "output".toList⟩] },
+                         { stage := 0, name := "stop".toList, refs := [⟨false, none, "x".toList, [], "loopoutput".toList⟩] }] }
+
+/-- the expansion of the SAME placeholder differs between its two consumers: the producer of the current condition
+gets the instances only (no self-loop), the outside consumer gets the instances and that producer -/
+example :
+    refPreds [exDocAgg] (runM [exDocAgg] exOut [0]).comps
+        { stage := 1, name := instName 1 "stop".toList, refs := [] } ⟨false, some 1, "x".toList, [], "loopoutput".toList⟩
+      = [(1, instName 0 "x".toList), (1, instName 1 "x".toList)] ∧
+    refPreds [exDocAgg] (runM [exDocAgg] exOut [0]).comps
+        { stage := 2, name := "plain0".toList, refs := [] } ⟨false, some 1, "x".toList, [], "ref".toList⟩
+      = [(1, instName 0 "x".toList), (1, instName 1 "x".toList), (1, instName 1 "stop".toList)] := by decide
+/-- … and the live graph has no self-loop -/
+example : (runM [exDocAgg] exOut [0, 0]).edges.all (fun e => e.1 != e.2) = true := by decide
 example : ctlPredecessors [exDoc, exDoc2] (runM [exDoc, exDoc2] exOut [1, 0]).comps (1, "x".toList)
     = [(1, instName 0 "x".toList), (1, instName 1 "x".toList), (1, instName 1 "stop".toList)] := by decide
 
